@@ -827,3 +827,48 @@ def wallet_input_complete(ctx):
             ctx.require(not missing, q, '`%s(...)` hands over wallet keys without %s, which every sibling site passes' % (norm(c.func), ', '.join(m_ + '=' for m_ in missing)), c,
                         'the input is built with the default of Input.__init__ for that argument (value 0, sigs_required 1 / all keys, compressed keys, unsorted keys): its digest or its redeem script is not the one of the output it spends')
     ctx.floor(n, 5, 'Input constructions with wallet keys')
+
+
+@PROP.obligation('C01.cache-input-witness', canaries=[
+    mut.replace_stmt('services.services', 'Cache._parse_db_transaction', 'witness_type = None', 'witness_type = db_tx.witness_type.value', 'cached transactions force the transaction witness type onto every input'),
+])
+def cache_input_witness(ctx):
+    """A segwit-serialised transaction may spend legacy outputs as well; which preimage an input is checked with is a property of THAT input.
+    Cache._parse_db_transaction rebuilds a cached transaction input by input: the loop body is evaluated for an ordinary (non-coinbase)
+    input, and the witness_type handed to add_input is None (so that Input.__init__ derives it from the input's own script / address /
+    witnesses) or comes from the input's own row - never the transaction-level value, which types a legacy P2SH multisig input of a
+    mixed transaction 'segwit': it is then verified against the BIP143 digest and raw() differs."""
+    q = 'services.services:Cache._parse_db_transaction'
+    fn = ctx.repo.func(q)
+    loops = [l for l in ast.walk(fn) if isinstance(l, ast.For) and isinstance(l.target, ast.Name) and 'nodes' in norm(l.iter)]
+    if len(loops) != 1:
+        ctx.undecided('_parse_db_transaction: loop over the cached inputs / outputs not found')
+    NODE = ('var', loops[0].target.id)
+    seen = []
+
+    def decide(t):
+        s_ = show(t)
+        if t == ('attr', NODE, 'is_input'):
+            return True
+        if isinstance(t, tuple) and t and t[0] == 'cmp' and 'ref_txid' in s_:
+            return False if t[1] == '==' else True        # not the all-zero outpoint of a coinbase
+        return None
+    hooks = {'.add_input': lambda it, b, a, kw, st, node: (seen.append(({k: (term(v) if isinstance(v, S) else v) for k, v in kw.items()}, node)), 0)[1]}
+    it = Interp(ctx.repo, 'services.services', hooks=hooks, decide=decide)
+    st = State(env={'db_tx': S(('var', 'db_tx')), 't': S(('var', 't')), loops[0].target.id: S(NODE)})
+    it.frames.append([])
+    try:
+        it.exec_block(loops[0].body, st)
+    except AnalysisError as e:
+        ctx.undecided('_parse_db_transaction: loop body not evaluable for an ordinary input: %s' % str(e)[:100])
+    it.frames.pop()
+    if len(seen) != 1:
+        ctx.undecided('_parse_db_transaction: add_input called %d times for one cached input' % len(seen))
+    wt = seen[0][0].get('witness_type')
+    ctx.saw('ordinary cached input: add_input(..., witness_type=%s)' % (show(wt) if isinstance(wt, tuple) else wt))
+    own = wt is None or (isinstance(wt, tuple) and NODE in list(subterms(('w', wt))) and ('var', 'db_tx') not in list(subterms(('w', wt))))
+    ctx.require(own, q, 'an ordinary cached input is rebuilt with witness_type=%s, the value of the whole transaction' % (show(wt)[:60] if isinstance(wt, tuple) else wt), seen[0][1],
+                'a legacy P2SH multisig input next to a P2WPKH input comes back from the cache typed segwit: verify() checks it against the BIP143 digest (False for a valid transaction) and raw() differs')
+
+
+PROP.obligation('C01.stored-key-order')(_c08.key_order)
